@@ -91,3 +91,63 @@ func c05SetOrder(kinds int) {
 
 func HarnessC05SetIterationOrder()   { c05SetOrder(3) }
 func HarnessC05SetIterationOrderFP() { c05SetOrder(4) }
+
+// HarnessC05GoViewsOfContainers: the Go values that a host (or a codec, or a
+// %v in an error message) obtains from a set or a map — Interface(), the list
+// form of a set — do not depend on Go-map iteration order.
+func HarnessC05GoViewsOfContainers() {
+	n := 2
+	if verifrt.Thorough() {
+		n = 2 + verifrt.Choose(2)
+	}
+	s := NewSetWithSize(n)
+	m := NewMap(map[string]Object{})
+	for i := 0; i < n; i++ {
+		v := verifrt.Int64()
+		s.Add(&Int{value: v})
+		m.Set(verifrt.String(1), &Int{value: v})
+	}
+	render := func() []int64 {
+		var out []int64
+		if items, ok := s.Interface().([]interface{}); ok {
+			for _, it := range items {
+				if iv, isInt := it.(int64); isInt {
+					out = append(out, iv)
+				}
+			}
+		}
+		out = append(out, -1)
+		for _, it := range s.List().items {
+			if iv, isInt := it.(*Int); isInt {
+				out = append(out, iv.value)
+			}
+		}
+		out = append(out, -2)
+		for _, it := range m.Values().items {
+			if iv, isInt := it.(*Int); isInt {
+				out = append(out, iv.value)
+			}
+		}
+		out = append(out, -3)
+		for _, it := range m.ListItems().items {
+			if pair, isL := it.(*List); isL && len(pair.items) == 2 {
+				if iv, isInt := pair.items[1].(*Int); isInt {
+					out = append(out, iv.value)
+				}
+			}
+		}
+		return out
+	}
+	first := render()
+	verifrt.MapOrderAll(true)
+	second := render()
+	verifrt.MapOrderAll(false)
+	verifrt.Reach("compared")
+	same := len(first) == len(second)
+	if same {
+		for i := range first {
+			same = verifrt.And(same, first[i] == second[i])
+		}
+	}
+	verifrt.Assert(same, "go-view-of-a-container-independent-of-map-iteration-order")
+}
